@@ -197,3 +197,79 @@ func VerifC05_History() {
 	p, _ := e.k.GetPool(e.at(h), e.poolID)
 	verifAssert(p.TotalLptLocked.Amount.IsZero(), "pool total back to zero")
 }
+
+// C06 adjust: changing the reward rate (and/or appending reward) first settles the elapsed blocks at the
+// OLD rate, keeps total = remaining + released, and re-schedules the end height so that the remaining
+// reward still covers every block until the (new) end.
+func VerifC06_AdjustStep() {
+	verifExpect("done", "refused")
+	h := int64(20)
+	e := newFmEnv(h)
+	zero, one := big.NewInt(0), big.NewInt(1)
+	w := verifPow2(40)
+	gap := int64(verifChoice("gap", 3))
+	locked := verifIntIn("locked", zero, w)
+	rpb := verifIntIn("rpb", one, w)
+	remaining := verifIntIn("remaining", one, verifPow2(60))
+	released0 := verifIntIn("releasedBefore", zero, w)
+	total := remaining.Add(released0)
+	end := int64(40)
+	last := h - gap
+	// F5: the remaining reward covers every block until the end height at the current rate
+	verifAssume(remaining.BigInt().Cmp(verifMul(rpb.BigInt(), big.NewInt(end-last))) >= 0)
+	rps := verifDec("rps", zero, verifMul(verifPow2(40), verifPow10(18)))
+	st := fmState{locked: locked, total: total, remaining: remaining, rpb: rpb, rps: rps, start: 5, last: last, end: end}
+	e.seedPool(st)
+	e.bank.fund(vModuleAddr(types.ModuleName), fmLpt, locked)
+	e.bank.fund(vModuleAddr(types.ModuleName), fmReward, remaining)
+	appendAmt := verifIntIn("append", zero, w)
+	newRpb := verifIntIn("newRpb", one, w)
+	e.bank.fund(e.creator, fmReward, verifIntIn("creatorWallet", zero, verifPow2(42)))
+	var reward, rate sdk.Coins
+	if verifChoice("doAppend", 2) == 1 {
+		verifAssume(appendAmt.IsPositive())
+		reward = sdk.NewCoins(sdk.Coin{Denom: fmReward, Amount: appendAmt})
+	} else {
+		verifAssume(appendAmt.IsZero())
+	}
+	if verifChoice("doRate", 2) == 1 {
+		rate = sdk.NewCoins(sdk.Coin{Denom: fmReward, Amount: newRpb})
+	}
+	verifAssume(reward != nil || rate != nil)
+	actor := e.creator
+	if verifChoice("actor", 2) == 1 {
+		actor = e.a
+	}
+	ctx := e.at(h)
+	col0, mod0 := e.collector(), e.mod(fmReward)
+	err, _ := e.verifDeliver(func() error { return e.k.AdjustPool(ctx, e.poolID, reward, rate, actor) })
+	pool, _ := e.k.GetPool(ctx, e.poolID)
+	rule := e.k.GetRewardRules(ctx, e.poolID)[0]
+	if err != nil {
+		verifCover("refused")
+		verifAssert(rule.RemainingReward.Equal(remaining) && rule.RewardPerBlock.Equal(rpb) && pool.EndHeight == end && e.collector().Cmp(col0) == 0, "a refused adjustment changes nothing")
+		return
+	}
+	verifCover("done")
+	verifAssert(actor.Equals(e.creator), "only the pool creator adjusts a pool")
+	released := big.NewInt(0)
+	if gap > 0 && locked.IsPositive() {
+		released = verifMul(rpb.BigInt(), big.NewInt(gap)) // at the OLD rate
+	}
+	verifAssert(verifSub(e.collector(), col0).Cmp(released) == 0, "elapsed blocks are released at the rate configured for them")
+	expRemaining := verifAdd(verifSub(remaining.BigInt(), released), appendAmt.BigInt())
+	verifAssert(rule.RemainingReward.BigInt().Cmp(expRemaining) == 0, "remaining = old remaining - released + appended")
+	verifAssert(rule.TotalReward.BigInt().Cmp(verifAdd(total.BigInt(), appendAmt.BigInt())) == 0, "total = old total + appended")
+	verifAssert(verifSub(e.mod(fmReward), mod0).Cmp(verifSub(appendAmt.BigInt(), released)) == 0, "farm escrow holds exactly the remaining reward")
+	wantRate := rpb
+	if rate != nil {
+		wantRate = newRpb
+	}
+	verifAssert(rule.RewardPerBlock.Equal(wantRate), "the new rate is recorded")
+	verifAssert(pool.LastHeightDistrRewards == h, "the pool is settled up to now")
+	verifAssert(pool.EndHeight >= h, "the end height never lies in the past")
+	// F5 re-established: remaining covers every block until the new end at the new rate
+	verifAssert(rule.RemainingReward.BigInt().Cmp(verifMul(wantRate.BigInt(), big.NewInt(0).SetInt64(pool.EndHeight-h))) >= 0, "F5 the remaining reward covers every block until the new end height")
+	st2 := e.store()
+	verifAssert(st2.Has(types.KeyActiveFarmPool(pool.EndHeight, e.poolID)) && (pool.EndHeight == end || !st2.Has(types.KeyActiveFarmPool(end, e.poolID))), "F4 the pool is queued exactly at its end height")
+}
